@@ -11,7 +11,8 @@ Results: /verif/seeded/<PID>-<mK>/{patch.diff,demo.py,meta.json}
 """
 import json, os, shutil, subprocess, sys, concurrent.futures as cf
 
-OUT = "/tmp/out"
+OUT = os.environ.get("SEED_OUT", "/tmp/out")
+TAG = os.environ.get("SEED_TAG", "")  # e.g. "r2" -> ids Cxx-r2mK
 SEEDED = "/verif/seeded"
 PY = "/venv/bin/python"
 ALL = [c["property_id"] for c in json.load(open("/verif/MANIFEST.json"))["checks"]]
@@ -26,7 +27,7 @@ def work(item):
     pid, mk = item
     src = os.path.join(OUT, pid, mk)
     wt = "/tmp/wt/conf_%s_%s" % (pid, mk)
-    res = {"id": "%s-%s" % (pid, mk), "property": pid}
+    res = {"id": "%s-%s%s" % (pid, TAG, mk), "property": pid, "mk": mk}
     sh("git -C /repo worktree remove --force %s" % wt)
     rc, out = sh("git -C /repo worktree add -q --detach %s HEAD" % wt)
     try:
@@ -71,7 +72,7 @@ def main():
     with cf.ThreadPoolExecutor(max_workers=8) as ex:
         results = list(ex.map(work, items))
     for r in results:
-        pid, mk = r["id"].split("-", 1)
+        pid, mk = r["property"], r["mk"]
         own = r.get("checks", {}).get(pid, [])
         viol = {p: v for p, v in r.get("checks", {}).items() if v != ["ANALYSIS-ERROR"]}
         status = "CAUGHT" if own and own != ["ANALYSIS-ERROR"] else ("caught-by-other" if viol else ("inconclusive" if own == ["ANALYSIS-ERROR"] else "MISSED"))
@@ -82,7 +83,9 @@ def main():
             os.makedirs(d, exist_ok=True)
             src = os.path.join(OUT, pid, mk)
             shutil.copy(os.path.join(src, "patch.diff"), d)
-            shutil.copy(os.path.join(src, "demo.py"), d)
+            for fn in os.listdir(src):
+                if fn.endswith(".py") and os.path.getsize(os.path.join(src, fn)) < 200000:
+                    shutil.copy(os.path.join(src, fn), d)
             note = open(os.path.join(src, "note.md")).read() if os.path.exists(os.path.join(src, "note.md")) else ""
             meta = {"id": r["id"], "breaks_property": pid, "needs_to_manifest": note.strip()[:1500],
                     "confirmed": {"tests_with_patch": r["tests"], "demo_exit_with_patch": r["demo_with_patch"], "demo_exit_without_patch": r["demo_without_patch"],
